@@ -537,7 +537,8 @@ def gen_edit(rng, obj, allow_absent=True):
         return ("setnds", {"d": {"FE56": 0.0625, "NA23": 0.015625}}) if lvl == "component" else ("scale", {"f": 2.0})
     cur = {n: float(obj.getNumberDensity(n)) for n in nucs}
     pos = [n for n in nucs if cur[n] > 1e-30]
-    op = rng.choice(["setnd", "setnd", "upd", "setnds", "scale", "addmass", "removemass", "setmass", "setmf"])
+    op = rng.choice(["setnd", "setnd", "upd", "setnds", "scale", "addmass", "removemass", "setmass", "setmf",
+                     "addmasses", "setmasses"])
     fac = lambda: rng.choice([0.5, 0.75, 1.0, 1.25, 1.5, 2.0])  # noqa: E731
     special = lambda v: rng.choice([v, v, v, 0.0, 1e-50])  # noqa: E731
     new = [n for n in ("XE135", "PU239", "AM241", "HE4", "SM149") if n not in nucs]
@@ -568,6 +569,18 @@ def gen_edit(rng, obj, allow_absent=True):
         return ("setnds", {"d": d})
     if op == "scale":
         return ("scale", {"f": rng.choice([0.0, 0.5, 1.0, 1.25, 2.0, 0.9375])})
+    if op in ("addmasses", "setmasses"):
+        amb = ambiguous(obj)
+        cands = [n for n in (pos or nucs) if n not in amb]
+        if not cands or float(obj.getVolume()) == 0.0:
+            return ("scale", {"f": 1.25})
+        ks = rng.sample(cands, min(len(cands), rng.randint(1, 3)))
+        if op == "addmasses":
+            # positive, zero (skipped by the code) and negative (= removal) entries
+            d = {n: rng.choice([8.0, 0.0, 0.5 * float(obj.getMass(n)) + 1.0, -0.25 * float(obj.getMass(n))]) for n in ks}
+        else:
+            d = {n: rng.choice([64.0, 0.0, 1.5 * float(obj.getMass(n)) + 2.0]) for n in ks}
+        return (op, {"d": d})
     if op in ("addmass", "removemass", "setmass"):
         amb = ambiguous(obj)
         cands = [n for n in (pos or nucs) if n not in amb]
@@ -611,7 +624,7 @@ def value_class(op, a, obj):
     here = set(obj.getNuclides())
     if op == "setnd":
         return ("absent-" if a["n"] not in here else "") + vc(a["v"])
-    if op in ("upd", "setnds", "setmf"):
+    if op in ("upd", "setnds", "setmf", "addmasses", "setmasses"):
         d = a["d"]
         if not d:
             return "empty"
@@ -661,6 +674,10 @@ def apply_real(obj, op, a):
                 obj.setMass(a["n"], a["m"])
             elif op == "setmf":
                 obj.setMassFracs(dict(a["d"]))
+            elif op == "addmasses":
+                obj.addMasses(dict(a["d"]))
+            elif op == "setmasses":
+                obj.setMasses(dict(a["d"]))
             else:
                 raise KeyError(op)
     except (ValueError, ZeroDivisionError):
@@ -672,9 +689,14 @@ def model_line(mir, path, op, a):
     p = pth(path)
     if op == "setnd":
         return f"setnd {p} {mir.nid(a['n'])} {rat(a['v'])}"
-    if op in ("upd", "setnds", "setmf"):
+    if op in ("upd", "setnds", "setmf", "addmasses"):
         d = a["d"]
         return f"{op} {p} {intlist([mir.nid(n) for n in d])} {ratlist(list(d.values()))}"
+    if op == "setmasses":
+        from armi.utils import units
+
+        d = a["d"]
+        return f"setmasses {p} {rat(units.TRACE_NUMBER_DENSITY)} {intlist([mir.nid(n) for n in d])} {ratlist(list(d.values()))}"
     if op == "scale":
         return f"scale {p} {rat(a['f'])}"
     if op == "addmass":
@@ -708,7 +730,7 @@ def edit_oracle(obj, op, a, res, bef, fail):
                 fail(f"{op}-frame-{lvl}", f"{op} leaves every other nuclide's density unchanged ({m_})", nd(m_), v)
                 return
 
-    if res == "reject" and op == "setmf":
+    if res == "reject" and op in ("setmf", "addmasses", "setmasses"):
         # as coded, setMassFracs applies the listed fractions one by one: when a later nuclide is refused the
         # earlier ones stay applied (Model: setMassFracsPrefix). Atomicity is not part of the property; recorded.
         return
@@ -755,6 +777,25 @@ def edit_oracle(obj, op, a, res, bef, fail):
                 key = "assembly-volume-first-block-area"
             fail(key, f"{op} makes the nuclide's mass read back the requested value at the same level", got, want)
         frame({n})
+    elif op in ("addmasses", "setmasses"):
+        # the vector forms: every listed nuclide exactly as the single-nuclide call would do it, at the same level
+        mscale = max([abs(v) for v in bef["mass"].values()] + [abs(v) for v in a["d"].values()] + [0.0])
+        f5 = lvl == "assembly" and not fclose(float(obj.getVolume()), sum(float(b.getVolume()) for b in obj))
+        for n, m in a["d"].items():
+            m0 = bef["mass"].get(n, 0.0)
+            want = m0 + m if op == "addmasses" else m
+            got = float(obj.getMass(n))
+            if not fclose(got, want, scale=mscale * 1e-9):
+                fail("assembly-volume-first-block-area" if f5 else f"{op}-readback-{lvl}",
+                     f"{op} changes every listed nuclide's mass by / to exactly the requested amount at the same level ({n})",
+                     got, want)
+        if op == "addmasses":
+            frame(set(a["d"]))
+        else:
+            for m_ in bef["nd"]:
+                if m_ not in a["d"] and abs(nd(m_)) > 1e-40:
+                    fail(f"setmasses-others-cleared-{lvl}", "setMasses leaves only trace densities of unlisted nuclides", nd(m_), 1e-50)
+                    break
     elif op == "setmf":
         rest = sum(v for n, v in bef["mf"].items() if n not in a["d"])
         if not rest > 1e-9:
@@ -867,6 +908,40 @@ def edit_sequence(ctx, mir, assemblies, paths, targets, nedits, label, resync=6)
         op, a = gen_edit(rng, obj)
         do_edit(ctx, mir, paths, obj, op, a, label, step)
     return paths
+
+
+def vector_mass_script(ctx, mir, paths, a, label):
+    """addMasses / setMasses (vector forms) at component, block and assembly level of this assembly - in a
+    symmetry-cut assembly the component-level scaling of the single-nuclide calls must hold for them too"""
+    step = [2000]
+
+    def go(obj, op, args):
+        step[0] += 1
+        return do_edit(ctx, mir, paths, obj, op, args, label, step[0])
+
+    def masses(obj, k):
+        amb = ambiguous(obj)
+        return [(n, float(obj.getMass(n))) for n in sorted(obj.getNuclides())
+                if n not in amb and float(obj.getNumberDensity(n)) > 1e-30][:k]
+
+    blocks = [b for b in a if len(b)]
+    b = blocks[min(1, len(blocks) - 1)]
+    comps = [c for c in b if not comp_empty(c) and float(c.getVolume()) > 0 and masses(c, 1)]
+    for obj in comps[:1] + [b, a]:
+        ms = masses(obj, 3)
+        if not ms:
+            continue
+        d = {ms[0][0]: 8.0}
+        if len(ms) > 1:
+            d[ms[1][0]] = -0.25 * ms[1][1]
+        if len(ms) > 2:
+            d[ms[2][0]] = 0.0
+        go(obj, "addmasses", {"d": d})
+    for obj in comps[:1] + [b]:
+        ms = masses(obj, 2)
+        if ms:
+            go(obj, "setmasses", {"d": {n: (64.0 if i == 0 else 0.5 * m + 1.0) for i, (n, m) in enumerate(ms)}})
+            go(obj, "addmasses", {"d": {ms[0][0]: 4.0}})
 
 
 def new_nuclide_script(ctx, mir, paths, a, label):
@@ -1089,6 +1164,8 @@ def run_assemblies(ctx, r):
         targets = [a] + blocks + [c for b in rng.sample(blocks, min(2, len(blocks))) for c in rng.sample(list(b), 2)]
         label = f"assembly sym={a.getSymmetryFactor():g}"
         paths = edit_sequence(ctx, mir, [a], paths, targets, ctx.pick(10, 60), label)
+        paths = mir.load([a], extra_nucs=("PU239", "AM241", "HE4"))
+        vector_mass_script(ctx, mir, paths, a, label)
         element_level_edits(ctx, mir, paths, [a, blocks[1], list(blocks[1])[0]], label)
         run_session(ctx, mir, label)
 
@@ -1586,6 +1663,90 @@ def run_query_order(ctx, r):
     run_session(ctx, mir, "query order")
 
 
+def run_structure(ctx, r):
+    """structural edits of an assembly's block list (insert a block, remove a middle block, change a block height),
+    each WITHOUT and WITH re-meshing (calculateZCoords): the assembly's volume must stay first-block area x the sum of
+    the CURRENT block heights, and the accounting (N x V, mass = density x volume, setMass read-back) must follow"""
+    from armi.reactor.flags import Flags
+
+    core = r.core
+    rng = ctx.rng
+    fuels = [a for a in core if a.hasFlags(Flags.FUEL) and len(a) >= 4]
+    pool = [a for a in fuels if a.getSymmetryFactor() == 3.0][:1] + rng.sample([a for a in fuels if a.getSymmetryFactor() == 1.0],
+                                                                               ctx.pick(1, 6))
+    kinds = ["insert", "remove-middle", "setHeight", "raw-height-param"]
+    mir = Mirror()
+    for ai, a0 in enumerate(pool):
+        for kind in kinds:
+            for remesh in (False, True):
+                if not ctx.thorough and ai > 0 and (remesh or kind in ("remove-middle", "setHeight")):
+                    continue
+                with common.quiet():
+                    a = copy.deepcopy(a0)
+                EPOCH[0] += 1
+                case = {"stream": "structure", "assembly": a0.name, "edit": kind, "remesh": remesh}
+                fail = lambda k, cl, o, e, case=case: ctx.fail(k, cl, case, observed=o, expected=e)  # noqa: E731
+                v0 = float(a.getVolume())   # evaluate once before the edit (caches, z-parameters)
+                try:
+                    with common.quiet():
+                        if kind == "insert":
+                            nb = copy.deepcopy(a[1])
+                            nb.setName(nb.name + "x")
+                            a.insert(2, nb)
+                        elif kind == "remove-middle":
+                            a.remove(a[2])
+                        elif kind == "setHeight":
+                            a[1].setHeight(float(a[1].getHeight()) * 1.5)
+                        else:
+                            a[1].p.height = float(a[1].getHeight()) * 1.5
+                            a[1].clearCache()
+                            for c in a[1]:
+                                c.clearCache()
+                        if remesh:
+                            a.calculateZCoords()
+                except Exception as e:
+                    ctx.count(f"structure: {kind} refused ({type(e).__name__})")
+                    continue
+                EPOCH[0] += 1
+                ctx.case(("structure", kind, remesh), nontrivial=True)
+                ctx.count(f"structure {kind} remesh={remesh}")
+                blocks = list(a)
+                hsum = sum(float(b.getHeight()) for b in blocks)
+                vol = float(a.getVolume())
+                want = float(blocks[0].getArea()) * hsum
+                if not fclose(vol, want):
+                    fail("assembly-volume-stale-z", "Assembly.getVolume() == first block's area x sum of the current block heights",
+                         vol, want)
+                if not fclose(float(a.getTotalHeight()), hsum):
+                    fail("assembly-height-stale-z", "getTotalHeight() == sum of the current block heights", float(a.getTotalHeight()), hsum)
+                bsum = sum(float(b.getVolume()) for b in blocks)
+                equal = len({round(float(b.getArea()), 8) for b in blocks}) == 1
+                for b in blocks:
+                    if not fclose(float(b.getVolume()), float(b.getArea()) * float(b.getHeight())):
+                        fail("block-volume-stale-height", "block volume == block area x current height", float(b.getVolume()),
+                             float(b.getArea()) * float(b.getHeight()))
+                        break
+                if equal and not fclose(vol, bsum):
+                    fail("volume-additive-assembly", "assembly volume == sum of block volumes (equal block areas)", vol, bsum)
+                nucs = [n for n in ("U235", "NA23", "FE56") if n in a.getNuclides()]
+                for n in nucs:
+                    nv = float(a.getNumberDensity(n)) * bsum
+                    kv = sum(float(b.getNumberDensity(n)) * float(b.getVolume()) for b in blocks)
+                    if not fclose(nv, kv, tol=1e-8):
+                        fail("atoms-additive-assembly", f"N x V of {n}: assembly == sum of blocks after the structural edit", nv, kv)
+                if equal and not fclose(float(a.getMass()), dens(a) * vol, tol=1e-8):
+                    fail("mass-density-volume-assembly", "assembly mass == density x volume after the structural edit",
+                         float(a.getMass()), dens(a) * vol)
+                # correspondence on the edited assembly, then a mass edit through the standard machinery
+                paths = mir.load([a], extra_nucs=())
+                add_snap(ctx, mir, "structure: Model/Compo vs assembly", case, a, paths[id(a)], nucs)
+                for b in blocks[:3]:
+                    add_snap(ctx, mir, "structure: Model/Compo vs block", dict(case, block=b.name), b, paths[id(b)], nucs[:2])
+                if equal and nucs:
+                    do_edit(ctx, mir, paths, a, "setmass", {"n": nucs[0], "m": 1000.0}, "structure", 0)
+    run_session(ctx, mir, "structure")
+
+
 def run_findings(ctx, r):
     """excluded points listed in findings.d/C02.txt: shown to still reproduce on the real code."""
     from armi.reactor.flags import Flags
@@ -1660,6 +1821,7 @@ def run(ctx):
         guarded(ctx, "generated", lambda: run_generated(ctx))
         guarded(ctx, "derived shape", lambda: run_derived(ctx, r))
         guarded(ctx, "query order", lambda: run_query_order(ctx, r))
+        guarded(ctx, "structure", lambda: run_structure(ctx, r))
         guarded(ctx, "findings", lambda: run_findings(ctx, r))
     ctx.rule = ("reference third-core reactor with edge assemblies (symmetry factors 1, 2, 3): every assembly and the core "
                 "compared and checked for additivity; seeded edit sequences (9 edit kinds x 4 levels, values incl. 0.0, 1e-50, "
@@ -1668,7 +1830,9 @@ def run(ctx):
                 "Rectangle, Triangle, HoledHexagon, Square, DerivedShape) x library materials, detached or at the centre of a "
                 "third-core grid; derived (left-over) shapes of the reference blocks, as loaded and after thermal expansion "
                 "of a neighbour; query-order scripts (volumes evaluated, a sibling of the derived coolant resized by setTemperature "
-                "or setDimension, first query afterwards = block area / coolant area / volume / after clearCache / mass); densityTools conversions on random compositions. distinct = object (read-only comparisons) / edit combination; "
+                "or setDimension, first query afterwards = block area / coolant area / volume / after clearCache / mass); "
+                "structural edits of an assembly's block list (insert, remove, height change; with and without re-meshing); "
+                "densityTools conversions on random compositions. distinct = object (read-only comparisons) / edit combination; "
                 "each is a real API call compared with the model after the edit and judged by the oracle. For edits, "
                 "distinct counts the (level, edit kind, value class [zero / trace / value / absent nuclide / empty / identity / "
                 "shrink / grow], symmetry factor, object type, accepted-or-refused) combinations actually exercised; the "
